@@ -337,7 +337,11 @@ func C19(c *core.Ctx) error {
 		c.Ev.Distinct("states", cs.id())
 		id := cs.id()
 		replay := map[string]any{"case": id, "v2_yaml": string(v2b), "cmd": "mockery migrate --config v2.yml --outfile v3.yml"}
-		if r.Panicked() || r.TimedOut {
+		if core.ResourceFailure(r) {
+			c.Skip("%s: migrate timed out or was killed", id)
+			return
+		}
+		if r.Panicked() {
 			c.Report("crash:"+id, "migrate crashed or hung on a decodable v2 file: "+firstN(r.Stderr, 600), replay)
 			return
 		}
@@ -373,7 +377,11 @@ func C19(c *core.Ctx) error {
 		// strict loader accepts it
 		r2 := core.Run(mod, core.UserEnv(), 60*time.Second, "", c.Mockery, "showconfig", "--config", v3path)
 		c.Ev.Add("transitions", 1)
-		if r2.Panicked() || r2.TimedOut {
+		if core.ResourceFailure(r2) {
+			c.Skip("%s: showconfig timed out or was killed", id)
+			return
+		}
+		if r2.Panicked() {
 			c.Report("loader-crash:"+id, "showconfig crashed on migrate's output: "+firstN(r2.Stderr, 600), replay)
 			return
 		}
